@@ -470,6 +470,8 @@ type jsonCase struct {
 	Floats  []float64        `json:"floats"`
 	Strings []string         `json:"strings"`
 	Snaps   []asset.Snapshot `json:"snaps"`
+	// Eods: the library's own JSON-tagged record (volumes are int64: extreme integers)
+	Eods []asset.TiingoEndOfDay `json:"eods"`
 }
 
 func roundTripJSON[T any](xs []T) ([]T, error) {
@@ -582,6 +584,10 @@ func jsonProp() engine.AnyProp {
 					// a tick timestamp: milliseconds or nanoseconds
 					d = d.Add(time.Duration(rapid.SampledFrom([]int64{1, 999, 123000000, 123456789, 999999999}).Draw(t, "ns")))
 				}
+				if rapid.Bool().Draw(t, "eod") {
+					c.Eods = append(c.Eods, asset.TiingoEndOfDay{Date: d, Open: fin("eo"), Close: fin("ec"), AdjClose: fin("eac"),
+						Volume: genInt(t, "evol", 64), AdjVolume: genInt(t, "eadjvol", 64), Split: fin("esplit")})
+				}
 				c.Snaps = append(c.Snaps, asset.Snapshot{Date: d, Open: fin("o"), High: fin("h"), Low: fin("l"), Close: fin("c"), Volume: fin("v")})
 			}
 			return c
@@ -631,6 +637,17 @@ func jsonProp() engine.AnyProp {
 			if err != nil || !reflect.DeepEqual(gs, c.Strings) && !(len(gs) == 0 && len(c.Strings) == 0) {
 				o.Failf("JSON strings %q came back as %q (%v)", c.Strings, gs, err)
 				return o
+			}
+			ge, err := roundTripJSON(c.Eods)
+			if err != nil || len(ge) != len(c.Eods) {
+				o.Failf("JSON TiingoEndOfDay records: %d came back of %d (%v)", len(ge), len(c.Eods), err)
+				return o
+			}
+			for i := range ge {
+				if !equalValue(reflect.ValueOf(ge[i]), reflect.ValueOf(c.Eods[i])) {
+					o.Failf("JSON TiingoEndOfDay %+v came back as %+v", c.Eods[i], ge[i])
+					return o
+				}
 			}
 			gn, err := roundTripJSON(c.Snaps)
 			if err != nil || len(gn) != len(c.Snaps) {
@@ -710,7 +727,7 @@ func witnessProp() engine.AnyProp {
 }
 
 // slowReaderProp: a consumer that is slow is not a consumer that is gone. One case per run (shard
-// 0 only): a file is read row by row with a pause after the first row - 16 s in the quick tier,
+// 0 only): a file is read row by row with a pause after the first row - 21 s in the quick tier,
 // 61 s in the thorough one; the pause is waiting, not a verdict - and every row written must
 // still arrive.
 var slowOnce sync.Once
@@ -743,7 +760,7 @@ func slowReaderProp() engine.AnyProp {
 					o.Failf("harness: %v", err)
 					return
 				}
-				pause := 16 * time.Second
+				pause := 21 * time.Second
 				if engine.Thorough() {
 					pause = 61 * time.Second
 				}
